@@ -1239,22 +1239,24 @@ def respFinal (st : RespSt × Bytes) (closed : Bool) : RespSt × Bytes :=
 def respRun (head : Bool) (frags : List Bytes) (closed : Bool) : RespSt × Bytes :=
   respFinal (frags.foldl respReader.feed (({ head := head } : RespSt), [])) closed
 
-/-- the client re-requests on a new connection (event stream reconnect): serviceResponse has called makeParser() if the
-message had ended, transmit() calls reinit().  What survives in the Respondent: last event id, retry, and the stale
-attributes; the next evented head builds a new event source over an emptied buffer (`respHeadDone`). -/
+/-- a new connection (Client.service after the reconnect): the receive buffer is emptied and a new message parser made,
+whatever phase the cut off message was in; when an event stream with a last event id is being followed the request is
+sent again (transmit -> reinit, which forgets `evented`).  What survives in the Respondent: last event id, retry, and
+the stale attributes; the next evented head builds a new event source over an emptied buffer (`respHeadDone`). -/
 def RespSt.reconnect (s : RespSt) : RespSt :=
   match s.phase with
-  | .halted => { s with phase := .status true, evented := none }
-  | .failed => { s with phase := .status true, evented := none }
-  | _ => { s with evented := none }
+  | .escaped c => { s with phase := .escaped c }
+  | _ => { s with phase := .status true, retry := s.curRetry, leid := s.curLeid,
+                  evented := if s.isEv && s.curLeid.isSome then none else s.evented }
 
 /-- a sequence of connections through one Respondent: per connection the reads, then the far side closes, then the
-reconnect.  Returns the state (with its leftover receive buffer) after every connection, before the reconnect. -/
-def respSeq : RespSt × Bytes → List (List Bytes) → List (RespSt × Bytes)
+reconnect (which starts from an EMPTY receive buffer).  Returns the state and leftover buffer after every connection,
+before the reconnect. -/
+def respSeq : RespSt → List (List Bytes) → List (RespSt × Bytes)
   | _, [] => []
-  | st, frags :: more =>
-    let st' := respFinal (frags.foldl respReader.feed st) true
-    st' :: respSeq (st'.1.reconnect, st'.2) more
+  | s, frags :: more =>
+    let st' := respFinal (frags.foldl respReader.feed (s, [])) true
+    st' :: respSeq st'.1.reconnect more
 
 /-- Server.serviceReqs over a sequence of reads on one connection -/
 def reqRun (bad : List Bytes) (frags : List Bytes) : ReqSt × Bytes :=
